@@ -100,3 +100,7 @@ std::pair<bool, std::size_t> _Prime_rehash_policy::_M_need_rehash(std::size_t n_
     return std::make_pair(false, std::size_t(0));
 }
 }}
+
+// std::allocator<char> special members: `extern template class allocator<char>` makes them symbols of libstdc++.so; they are referenced
+// (instead of inlined) when linked TUs are compiled with H(interpose=True).
+template class std::allocator<char>;
